@@ -714,6 +714,15 @@ def gen_trash_world(rng, cmd, profile="mixed", real_clock=None):
             rec = add_good(rng, w, tdir, base, tn, area + b"/" + tn, date, sentinel, kinds)
             entries.append({"tdir": tdir, "name": tn, "loc": area + b"/" + tn, "rec": rec, "date": date, "base": base})
         crowded = True
+    tilde = False
+    if cmd == "rm" and made and "HOME" in env and rng.random() < 0.1:
+        tdir, base = rng.choice(made)
+        for tn, loc in ((b"tilde-name", ((base if base is not None else R) + b"/w/~")), (b"home-itself", env["HOME"])):
+            if tdir + b"/info/" + tn + b".trashinfo" not in w.nodes:
+                date = rng.choice([x for x in DATES if truthy_date(x)])
+                rec = add_good(rng, w, tdir, base, tn, loc, date, sentinel, kinds)
+                entries.append({"tdir": tdir, "name": tn, "loc": loc, "rec": rec, "date": date, "base": base})
+                tilde = True
     # the same location recorded twice, once with a date and once without a readable one: a sort key built from both
     # fields must order them all the same
     undated_twin = False
@@ -771,7 +780,7 @@ def gen_trash_world(rng, cmd, profile="mixed", real_clock=None):
         opts["sort"] = rng.choice(["date", "date", "path", "none"] if not undated_twin else ["path", "path", "path", "date", "none"])
         if custom and rng.random() < 0.7:
             opts["trashDir"] = custom_spelling or custom
-        if rng.random() < 0.3:
+        if rng.random() < 0.3 or (any(e.get("dest") in ("hardlink-of-payload", "link-to-payload") for e in entries) and rng.random() < 0.6):
             opts["overwrite"] = True
         if rng.random() < 0.4 and entries:
             e = rng.choice(nf_pair if nf_pair and rng.random() < 0.7 else entries)
@@ -844,6 +853,8 @@ def gen_trash_world(rng, cmd, profile="mixed", real_clock=None):
         if nf_pair and rng.random() < 0.8:
             e = rng.choice(nf_pair)
             pats = [os.path.basename(e["loc"]), e["loc"], os.path.dirname(e["loc"]) + b"/*", b"caf\xc3\xa9*", b"*/r\xc3\xa9sum\xc3\xa9/*"]
+        if tilde:
+            pats = [b"~", b"~", b"~root", b"~*", b"*~"]
         args = [rng.choice(pats)]
     extra = {}
     if rng.random() < 0.2 and len(w.mounts) > 1:
